@@ -195,7 +195,7 @@ def magnitude_guard(t):
     if t[0] == "num":
         return float(t[1])
     if t[0] == "name":
-        return 1.0
+        return {"percent": 0.01, "ppm": 1e-6, "permille": 0.001}.get(t[1], 1.0)
     if t[0] == "neg":
         return -magnitude_guard(t[1])
     a, b = magnitude_guard(t[2]), magnitude_guard(t[3])
@@ -263,9 +263,12 @@ def show_res(r):
     if r[0] == "err":
         return r[1]
     v = r[1]
-    if hasattr(v, "_units"):
-        return f"{v.magnitude!r} {dict(v._units)}"
-    return repr(v)
+    try:
+        if hasattr(v, "_units"):
+            return f"{v.magnitude!r} {dict(v._units)}"
+        return repr(v)
+    except ValueError:  # CPython refuses to print integers of more than 4300 digits
+        return f"<{type(getattr(v, 'magnitude', v)).__name__} too long to print>"
 
 
 def check_tree(ureg, nit, tree, variant, col=None):
